@@ -2002,10 +2002,17 @@ func opcodeCheckSig(op *ParsedOpcode, t *thread) error {
 		return err
 	}
 
+	// Any failed check of a non-empty signature is an error under NULLFAIL,
+	// including signatures and public keys which do not parse.
+	nullFail := errs.NewError(errs.ErrNullFail, "signature not empty on failed checksig")
+
 	pubKey, err := bec.ParsePubKey(pkBytes, bec.S256())
 	if err != nil {
+		if t.hasFlag(scriptflag.VerifyNullFail) {
+			return nullFail
+		}
 		t.dstack.PushBool(false)
-		return nil //nolint:nilerr // only need a false push in this case
+		return nil
 	}
 
 	var signature *bec.Signature
@@ -2015,13 +2022,16 @@ func opcodeCheckSig(op *ParsedOpcode, t *thread) error {
 		signature, err = bec.ParseSignature(sigBytes, bec.S256())
 	}
 	if err != nil {
+		if t.hasFlag(scriptflag.VerifyNullFail) {
+			return nullFail
+		}
 		t.dstack.PushBool(false)
-		return nil //nolint:nilerr // only need a false push in this case
+		return nil
 	}
 
 	ok := signature.Verify(hash, pubKey)
-	if !ok && t.hasFlag(scriptflag.VerifyNullFail) && len(sigBytes) > 0 {
-		return errs.NewError(errs.ErrNullFail, "signature not empty on failed checksig")
+	if !ok && t.hasFlag(scriptflag.VerifyNullFail) {
+		return nullFail
 	}
 
 	t.dstack.PushBool(ok)
